@@ -57,10 +57,10 @@ fn main() {
             let n = |q: usize, t: usize| if thorough { t } else { q };
             match mode.as_str() {
                 "pairs" => cmp::drive_cmp(&args, n(2500, 60000)),
-                "ed" => cmp::drive_ed(&args, thorough, n(3000, 100000)),
-                "sub" => cmp::drive_sub(&args, thorough, n(3000, 60000)),
-                "ss" => cmp::drive_ss(&args, thorough, n(2000, 40000)),
-                "reuse" => cmp::drive_reuse(&args, n(150, 3000), n(2000, 50000)),
+                "ed" => cmp::drive_ed(&args, thorough, n(3000, 200000)),
+                "sub" => cmp::drive_sub(&args, thorough, n(3000, 400000)),
+                "ss" => cmp::drive_ss(&args, thorough, n(2000, 100000)),
+                "reuse" => cmp::drive_reuse(&args, n(150, 10000), n(2000, 200000)),
                 "tables" => cmp::drive_tables(&args),
                 x => {
                     eprintln!("unknown cmp mode {}", x);
